@@ -76,6 +76,11 @@ add(_c('triv_na', tu='cfg_na.cpp', defines=['NDEBUG', 'VT_TRIVIAL', 'VT_NO_ASSIG
        model_defines={'COPY_MAY_THROW': 0, 'DEFAULT_MAY_THROW': 0, 'ASSIGN_COPY_MAY_THROW': 0, 'ELEM_TRIVIAL': 1}, compile_obligation='C13', props=['C13'],
        facts=dict(_PF, TRIVIAL=1)))
 
+# language standards (C17): the same TU extracted under each -std; a function whose extracted text (with everything it inlines)
+# is identical to the C++20 extraction shares that proof, the others are proved against the SAME contract
+for _std, _nm in (('c++11', 'std11'), ('c++14', 'std14'), ('c++17', 'std17'), ('c++2b', 'std23')):
+    add(_c(_nm, std=_std, dedupe_against='main', facts=dict(_PF), props=['C17']))
+
 # the configuration class excluded everywhere else: inline capacity larger than max_size () (known finding KF-C12-1)
 add(_c('kf_inline_gt_max', model_defines={'KF_INLINE_EXCEEDS_MAX_SIZE': 1}, only=['svb_append_element__pcE'], props=['C12'],
        facts={'MOVE_NOEXCEPT': 1, 'COPYABLE': 1, 'RELOCATE_WITH_MOVE': 1, 'POCCA': 0, 'POCMA': 0, 'POCS': 0, 'ALWAYS_EQUAL': 0}))
@@ -97,8 +102,8 @@ def cfg_defines(cfg):
     return d
 
 TIERS = {
-    'quick': ['main', 'tmove', 'aprop', 'aeq', 'pocs', 'pair_lt', 'pair_gt', 'n0', 'u8', 'triv', 'triv_na', 'kf_inline_gt_max'],
-    'thorough': ['main', 'tmove', 'aprop', 'aeq', 'pocs', 'pair_lt', 'pair_gt', 'n0_full', 'u8', 'triv', 'triv_na', 'kf_inline_gt_max', 'pocca', 'pocma', 'pocca_pocma', 'pocca_pocs', 'pocma_pocs'],
+    'quick': ['main', 'std11', 'std17', 'tmove', 'aprop', 'aeq', 'pocs', 'pair_lt', 'pair_gt', 'n0', 'u8', 'triv', 'triv_na', 'kf_inline_gt_max'],
+    'thorough': ['main', 'std11', 'std14', 'std17', 'std23', 'tmove', 'aprop', 'aeq', 'pocs', 'pair_lt', 'pair_gt', 'n0_full', 'u8', 'triv', 'triv_na', 'kf_inline_gt_max', 'pocca', 'pocma', 'pocca_pocma', 'pocca_pocs', 'pocma_pocs'],
 }
 
 # ---- quick tier: per property, the proofs run on every change (measured: <= ~10 min on 16 cores each).
@@ -148,6 +153,11 @@ QUICK = {
     'C14': {'main': ['svb_unchecked_calculate_new_capacity', 'svb_append_element__pcE', 'svb_append_copies', 'svb_request_capacity', 'svb_emplace_into_reallocation__pE_pcE',
                      'svb_assign_with_copies', 'svb_copy_assign_default__pcsvb', 'svb_append_range__strong_pcE_pcE', 'svb_resize_with__ul', 'svb_insert_copies@realloc', 'sv_reserve'],
             'n0': ['svb_append_element__pcE', 'svb_unchecked_calculate_new_capacity']},
+    'C17': {'main': [],
+            'std11': ['svb_append_element__pcE', 'svb_emplace_into_current__pE_pcE', 'svb_shrink_to_size', 'svb_move_assign_default__psvb', 'svb_erase_range',
+                      'svb_request_capacity', 'ai_external_range_length__pcE_pcE', 'sv_erase__svcit', 'sv_push_back__pcE', 'svb_ctor__ul_pcE_pcA'],
+            'std17': ['svb_append_element__pcE', 'svb_emplace_into_current__pE_pcE', 'svb_shrink_to_size', 'svb_move_assign_default__psvb', 'svb_erase_range',
+                      'svb_request_capacity', 'ai_external_range_length__pcE_pcE', 'sv_erase__svcit', 'sv_push_back__pcE', 'svb_ctor__ul_pcE_pcA']},
     'C15': {'main': ['ai_external_range_length__FI_FI', 'ai_default_uninitialized_copy__FI_FI_pE', 'svb_append_range__strong_FI_FI', 'ai_external_range_length__pcE_pcE']},
     'C18': {'pair_gt': ['svb_ctor__psvbM'], 'pair_lt': ['svb_ctor__psvbM'], 'main': ['ai_external_range_length__FI_FI', 'ai_destroy_range__pE_pE', 'svb_erase_last', 'svb_erase_all', 'svb_erase_to_end', 'svb_dtor', 'svb_ctor__pcA', 'svb_ctor__psvb',
                      'svb_move_assign_default__psvb', 'svb_swap_default', 'sv_size', 'sv_capacity', 'sv_clear', 'sv_pop_back', 'svb_erase_range', 'svb_emplace_into_current__pE_pE']},
